@@ -127,6 +127,10 @@ class StructParam(Parameter):
                     pobj.insideRW += 1   # guarded by self.accessLock
                     try:
                         return {m: getattr(self, f)() for m, f in flist}
+                    except Exception:
+                        # some members may be read already: keep the struct consistent with them
+                        self.announceUpdate(name, {m: getattr(self, f[5:]) for m, f in flist})
+                        raise
                     finally:
                         pobj.insideRW -= 1
 
